@@ -131,7 +131,22 @@ class VC:
         self.inputs = None      # filled by the driver: named input constants for model read-back
 
 
-_fresh = itertools.count()
+class _Counter:
+    """fresh-name counter; reset at the start of every function / lemma so that the SMT text of an obligation does not
+    depend on what was generated before it (same text => same solver behaviour in every property's run)"""
+
+    def __init__(self):
+        self.n = 0
+
+    def __next__(self):
+        self.n += 1
+        return self.n
+
+    def reset(self):
+        self.n = 0
+
+
+_fresh = _Counter()
 
 
 def fresh(prefix, sort):
@@ -771,7 +786,7 @@ class Engine:
             # unbounded quantifier (over all integers: used for set members)
             if self.small_scope is not None or self.concrete:
                 raise Unsupported("unbounded quantifier in bounded mode")
-            bvs = [z3.Int("%s!q%d" % (n_, next(_fresh))) for n_ in names]
+            bvs = [z3.Int("%s!q" % n_) for n_ in names]
             st2 = st.fork()
             for n_, bv in zip(names, bvs):
                 st2.env[n_] = bv
@@ -818,7 +833,7 @@ class Engine:
             if which == "forall":
                 return z3.And(*parts) if parts else z3.BoolVal(True)
             return z3.Or(*parts) if parts else z3.BoolVal(False)
-        bvs = [z3.Int("%s!q%d" % (n_, next(_fresh))) for n_ in names]
+        bvs = [z3.Int("%s!q" % n_) for n_ in names]     # alpha-equivalent formulas get identical terms
         st2 = st.fork()
         rng = []
         for k, (n_, bv) in enumerate(zip(names, bvs)):
@@ -1615,8 +1630,11 @@ class Engine:
                 inputs[key] = ("scalar", z, ty)
         self.inputs = inputs
         self.entry_heap = dict(st.heap)
+        self.requires_ids = {}
         for name, src in c.requires.items():
-            st.pc.append(to_bool(self.evc(src, st)))
+            t_ = to_bool(self.evc(src, st))
+            self.requires_ids[name] = t_.get_id()
+            st.pc.append(t_)
         self.requires_terms = list(st.pc)
         for gv, src in (c.ghost_vars or {}).items():
             v = self.evc(src, st)
